@@ -230,6 +230,7 @@ type runState struct {
 	flags    map[string]int64
 	objs     map[string]any
 	schedLog []string
+	pinned   map[string]int64 // Int variables concretised on this path
 	mapOrder bool
 	noPanicOK bool // harness allows target panics to end a path silently
 	icounts   map[string]int
@@ -376,6 +377,21 @@ func (r *runState) concretize(t *smt.Term) int64 {
 	if t.IsConst {
 		return t.I
 	}
+	// a variable already pinned on this path needs no solver call (and no decision)
+	if t.Op == "var" {
+		if v, ok := r.pinned[t.Name]; ok {
+			return v
+		}
+	}
+	pin := func(v int64) int64 {
+		if t.Op == "var" {
+			if r.pinned == nil {
+				r.pinned = map[string]int64{}
+			}
+			r.pinned[t.Name] = v
+		}
+		return v
+	}
 	for {
 		if r.replaying() {
 			d := r.prefix[r.pos]
@@ -387,12 +403,16 @@ func (r *runState) concretize(t *smt.Term) int64 {
 			eq := smt.Eq(t, smt.IntC(d.Aux))
 			if d.C == 0 {
 				r.assertPC(eq)
-				return d.Aux
+				return pin(d.Aux)
 			}
 			r.assertPC(smt.Not(eq))
 			continue
 		}
 		res := r.w.solver.Check(nil)
+		if res == smt.Unsat {
+			// the alternative "some other value" was queued on an inconclusive answer and turns out empty
+			panic(pathEnd{endInfeasible, "concretize: no further value"})
+		}
 		if res != smt.Sat {
 			r.unknowns++
 			panic(pathEnd{endUnsupported, "concretize: path condition not sat (" + res.String() + ")"})
@@ -407,7 +427,7 @@ func (r *runState) concretize(t *smt.Term) int64 {
 		}
 		r.trace = append(r.trace, Decision{C: 0, Aux: v.I, N: -1})
 		r.assertPC(eq)
-		return v.I
+		return pin(v.I)
 	}
 }
 
